@@ -119,7 +119,7 @@ contract(R + "Context._do_cleanups", props=P, params={"self": "ref:Context"}, se
          exprs={"getattr(self, 'on_cleanup_error', self.print_cleanup_error)": ("fresh", "any")},
          modifies=["G_cl_n", "G_cl_fn", "dict(self._root)"],
          raises=[Raises("Exception",
-                        when="self.fail_on_cleanup_errors and exists(lambda j: 0 <= j < len(%s) and cl_raises(G_cl_n + j))" % FUNCS,
+                        when="self.fail_on_cleanup_errors and exists(lambda n: G_cl_n <= n and n < G_cl_n + len(%s) and cl_raises(n))" % FUNCS,
                         label="some-cleanup-raised",
                         ensures={"all-cleanups-still-ran-once-in-reverse-order":
                                  "G_cl_n == %s + len(%s) and forall(lambda j: implies(0 <= j < len(%s), "
@@ -128,7 +128,8 @@ contract(R + "Context._do_cleanups", props=P, params={"self": "ref:Context"}, se
              "cleanups-so-far-ran-once-in-reverse-order":
                  "G_cl_n == pre(G_cl_n) + _i and forall(lambda j: implies(0 <= j < _i, G_cl_fn(pre(G_cl_n) + j) == _at(j)))",
              "errors-collected-iff-some-cleanup-so-far-raised":
-                 "(len(cleanup_errors) > 0) == exists(lambda j: 0 <= j < _i and cl_raises(pre(G_cl_n) + j))",
+                 "len(cleanup_errors) >= 0 and "
+                 "(len(cleanup_errors) > 0) == exists(lambda n: pre(G_cl_n) <= n and n < G_cl_n and cl_raises(n))",
              "earlier-log-kept": "forall(lambda k: implies(k < pre(G_cl_n), G_cl_fn(k) == pre(G_cl_fn(k))))",
              "root-still-counts": "has_key(self._root, 'cleanup_errors') and has_kind(dict_value(self._root, 'cleanup_errors'), 'int')",
          }, modifies=["G_cl_n", "G_cl_fn", "dict(self._root)", "list(cleanup_errors)"])],
